@@ -202,7 +202,7 @@ theorem headerPayload_crash (cfg : Config) (s : VState) (u : DUnit) (w : String)
       · exact h.elim
 
 theorem headerPayload_ok (cfg : Config) (s s1 : VState) (u : DUnit) (h : headerPayload cfg s u = .ok s1) :
-    s1.pcm = some cfg.pcm ∧ s1.majorVersion = some u.majorVersion ∧ s1.level.isSome = true ∧
+    s1.pcm = some u.pcm ∧ s1.majorVersion = some u.majorVersion ∧ s1.level.isSome = true ∧
     s1.lastPI = s.lastPI ∧ s1.nextOff = s.nextOff ∧ s1.lastPicNum = s.lastPicNum ∧
     s1.fragRemaining = s.fragRemaining ∧ s1.fragReceived = s.fragReceived ∧
     s1.initFragOffset = s.initFragOffset ∧ s1.slicesX = s.slicesX ∧ s1.slicesY = s.slicesY ∧
